@@ -41,6 +41,8 @@ def one(d):
                 new = [f for f in ctx.findings if f.key not in (base[p] or set()) and match_known(f, load_known(), set(ctx.model.functions)) is None]
                 if new:
                     out[p] = ["VIOLATION " + f.rule + " " + f.function + ": " + f.message[:140] for f in new[:3]]
+                elif ctx.errors:
+                    out[p] = ["ANALYSIS-ERROR " + "; ".join(ctx.errors)[:200]]  # a sub-rule gave no verdict (exit 2 of the check)
             except AnalysisError as e:
                 out[p] = ["ANALYSIS-ERROR " + str(e)[:200]]
         return name, out
